@@ -25,6 +25,23 @@ import (
 	"strings"
 )
 
+// maxExpandedNodes is the limit on the number of nodes import expansion may
+// add to the configuration tree, counted over all files read for one
+// configuration.
+//
+// A snippet that imports another one twice doubles the tree on each expansion
+// step, without the limit a few short lines are enough to exhaust the memory
+// long before expansionDepth gets anywhere near its limit.
+const maxExpandedNodes = 100000
+
+func countNodes(nodes []Node) int {
+	count := len(nodes)
+	for _, node := range nodes {
+		count += countNodes(node.Children)
+	}
+	return count
+}
+
 func (ctx *parseContext) expandImports(node Node, expansionDepth int) (Node, error) {
 	// Leave nil value as is because it is used as non-existent block indicator
 	// (vs empty slice - empty block).
@@ -56,6 +73,13 @@ func (ctx *parseContext) expandImports(node Node, expansionDepth int) (Node, err
 			subtree, err := ctx.resolveImport(child, child.Args[0], expansionDepth)
 			if err != nil {
 				return node, err
+			}
+
+			// The import directive itself is counted too, so there is a limit
+			// on the amount of imports that expand to nothing as well.
+			*ctx.expandedNodes += 1 + countNodes(subtree)
+			if *ctx.expandedNodes > maxExpandedNodes {
+				return node, NodeErr(child, "hit import expansion limit: too many nodes")
 			}
 
 			newChildrens = append(newChildrens, subtree...)
@@ -97,7 +121,7 @@ func (ctx *parseContext) resolveImport(node Node, name string, expansionDepth in
 			return nil, err
 		}
 	}
-	nodes, snips, macros, err := readTree(src, file, expansionDepth+1)
+	nodes, snips, macros, err := readTree(src, file, expansionDepth+1, ctx.expandedNodes)
 	if err != nil {
 		return nodes, err
 	}
